@@ -421,38 +421,11 @@ var ruleE3 = &Rule{
 			}
 		}
 		mk("other pairs keep escapes balanced", bad, fmt.Sprintf("%d further pairs", len(pairs)-2))
-		// return value: ' + x + '
-		bad = "no return of the form \"'\" + value + \"'\""
-		ast.Inspect(fd.Body, func(n ast.Node) bool {
-			r, ok := n.(*ast.ReturnStmt)
-			if !ok || len(r.Results) == 0 {
-				return true
-			}
-			var ops []ast.Expr
-			var flat func(e ast.Expr)
-			flat = func(e ast.Expr) {
-				if b, ok := ast.Unparen(e).(*ast.BinaryExpr); ok && b.Op == token.ADD {
-					flat(b.X)
-					flat(b.Y)
-					return
-				}
-				ops = append(ops, e)
-			}
-			flat(r.Results[0])
-			if len(ops) == 3 {
-				a, ok1 := constString(p.TypesInfo, ops[0])
-				z, ok2 := constString(p.TypesInfo, ops[2])
-				if ok1 && ok2 && a == "'" && z == "'" {
-					bad = ""
-					return true
-				}
-			}
-			if s, ok := constString(p.TypesInfo, r.Results[0]); ok && s == "" {
-				return true // error return
-			}
-			bad = "a return of the escaping routine is not the replaced value between two single quotes: " + c.normText(r)
-			return false
-		})
+		// return value: ' + x + ' (in the routine itself or in the helper whose result it returns)
+		bad = "escaping routine has no SSA body"
+		if sf := c.SSAFunc("reader/utils/sql_select", "(*StringVal).String"); sf != nil {
+			bad = c.returnsQuoted(sf, 0)
+		}
 		mk("wraps the value in single quotes", bad, "")
 		return obls
 	},
@@ -849,3 +822,91 @@ var ruleE4 = &Rule{
 }
 
 func init() { register(ruleE3); register(ruleE4) }
+
+// returnsQuoted: every return of fn yields `"'" + value + "'"` as its first result (or the empty string next to an error), directly
+// or as the result of a module helper for which the same holds. Returns "" when it does, else what is wrong.
+func (c *Ctx) returnsQuoted(fn *ssa.Function, depth int) string {
+	if depth > 3 || len(fn.Blocks) == 0 {
+		return "cannot follow the helper producing the literal: " + ssaName(fn)
+	}
+	isQ := func(v ssa.Value) bool {
+		s, ok := constStr(v)
+		return ok && s == "'"
+	}
+	n := 0
+	var check func(v ssa.Value, d int) string
+	check = func(v ssa.Value, d int) string {
+		if d > 6 {
+			return "return value too deep to follow"
+		}
+		switch x := v.(type) {
+		case *ssa.Const:
+			if s, ok := constStr(x); ok && s == "" {
+				return ""
+			}
+		case *ssa.BinOp:
+			if x.Op == token.ADD && isQ(x.Y) {
+				if in, ok := x.X.(*ssa.BinOp); ok && in.Op == token.ADD && isQ(in.X) {
+					if _, isC := in.Y.(*ssa.Const); !isC {
+						n++
+						return ""
+					}
+				}
+			}
+		case *ssa.Phi:
+			for _, e := range x.Edges {
+				if bad := check(e, d+1); bad != "" {
+					return bad
+				}
+			}
+			return ""
+		case *ssa.Extract:
+			if call, ok := x.Tuple.(*ssa.Call); ok && x.Index == 0 {
+				if sc := call.Common().StaticCallee(); sc != nil && isModuleFn(sc) {
+					if bad := c.returnsQuoted(sc, depth+1); bad != "" {
+						return bad
+					}
+					n++
+					return ""
+				}
+			}
+		case *ssa.Call:
+			if sc := x.Common().StaticCallee(); sc != nil && isModuleFn(sc) {
+				if bad := c.returnsQuoted(sc, depth+1); bad != "" {
+					return bad
+				}
+				n++
+				return ""
+			}
+		case *ssa.UnOp:
+			// a named result / local cell: every store into it
+			if a, ok := x.X.(*ssa.Alloc); ok && x.Op == token.MUL && a.Referrers() != nil {
+				any := false
+				for _, r := range *a.Referrers() {
+					if st, ok := r.(*ssa.Store); ok && st.Addr == ssa.Value(a) {
+						any = true
+						if bad := check(st.Val, d+1); bad != "" {
+							return bad
+						}
+					}
+				}
+				if any {
+					return ""
+				}
+			}
+		}
+		return "a return of the escaping routine is not the replaced value between two single quotes: " + c.pos(v.Pos())
+	}
+	for _, r := range returnsOf(fn) {
+		if len(r.Results) == 0 {
+			continue
+		}
+		if bad := check(r.Results[0], 0); bad != "" {
+			return bad
+		}
+	}
+	if n == 0 {
+		return "no return of the form \"'\" + value + \"'\""
+	}
+	return ""
+}
